@@ -87,9 +87,9 @@ PROPS = {
         # C06 = the safety obligations (overflow, bounds, slice ranges, unwrap, preconditions of callees such as the
         # allocation budget) of EVERY unit under contract, for all argument values
         'verus': [{'group': g, 'kinds': ['safety', 'requires-at-call', 'decreases', 'invariant']} for g in
-                  ['shard_core', 'shard_strings', 'shard_lists', 'shard_sweeper', 'shard_sets', 'shard_hashes', 'shard_zsets', 'cmd_strings', 'cmd_lists', 'cmd_sets', 'cmd_hashes', 'c03_lists_arith', 'c04_zset_arith', 'c19_scan', 'c20_parser', 'c20_serializer', 'c10_bgsave', 'c11_aof', 'c09_rdb', 'c13_blocking', 'c07_transactions', 'shard_flush']]
+                  ['shard_core', 'shard_strings', 'shard_lists', 'shard_sweeper', 'shard_sets', 'shard_hashes', 'shard_zsets', 'cmd_strings', 'cmd_lists', 'cmd_sets', 'cmd_hashes', 'c03_lists_arith', 'c04_zset_arith', 'c19_scan', 'c20_parser', 'c20_serializer', 'c10_bgsave', 'c11_aof', 'c09_rdb', 'c13_blocking', 'c07_transactions', 'shard_flush', 'c14_pubsub']]
                  # server-level units: their index/slice/overflow/unwrap/termination obligations only (their call preconditions are model permissions, not crashes)
-                 + [{'group': g, 'kinds': ['safety', 'decreases']} for g in ['srv_exec', 'srv_frame', 'srv_conn', 'srv_auth', 'srv_push', 'srv_notify', 'srv_aof', 'srv_select', 'srv_wake']],
+                 + [{'group': g, 'kinds': ['safety', 'decreases']} for g in ['srv_exec', 'srv_frame', 'srv_conn', 'srv_auth', 'srv_push', 'srv_notify', 'srv_aof', 'srv_select', 'srv_wake', 'srv_pubsub']],
         'kani': STREAM_KANI[:1] + RDB_TOTAL_KANI,
         'explanation': 'function by function: every unit under contract is proved free of index/slice errors, arithmetic overflow, failing unwraps and unbounded reservations for ALL argument values; the claim is "no panic in these functions", not "no panic in the server"',
     },
@@ -133,6 +133,11 @@ PROPS = {
         'level': 'proof',
         'verus': [{'group': 'c13_blocking'}, {'group': 'srv_push'}, {'group': 'srv_notify'}, {'group': 'srv_wake'}],
         'explanation': 'registry kernel: FIFO service, registry invariant, and no leftover registration of a served client (with unregister_client as assumed contract)',
+    },
+    'C14': {
+        'level': 'proof',
+        'verus': [{'group': 'c14_pubsub'}, {'group': 'srv_pubsub'}],
+        'explanation': 'PubSubManager::publish returns exactly one entry per matching subscription and nothing else; subscribe/psubscribe/unsubscribe/punsubscribe keep the three maps in agreement, change only the issuing connection, and acknowledge each name in order with the count right after it; the message/acknowledgement formatters keep channel, pattern and payload bytes intact; Server::handle_publish appends to each receiving connection exactly the frames of its entries, in order, and replies with the number of entries',
     },
     'C15': {
         'level': 'proof',
